@@ -196,6 +196,108 @@ def judge_nt_docs(out, rnd, n):
     out.notes["documents_by_carrier_and_line_end"] = chans
 
 
+CHAR = {"CR": "\r", "LF": "\n", "LS": "\u2028"}
+
+
+def _read_lines(payload):
+    """a text through one of the real line readers -> the lines it hands on (terminators and surrounding blanks removed)"""
+    import gzip
+    import lzma
+    import shutil
+    import tempfile
+    import zipfile
+    text = "".join(CHAR.get(ch, ch) for ch in payload["text"])
+    d = tempfile.mkdtemp(prefix="shexer-verif-lines-")
+    try:
+        def go():
+            r = payload["reader"]
+            if r == "raw":
+                from shexer.io.line_reader.raw_string_line_reader import RawStringLineReader
+                rd = RawStringLineReader(raw_string=text)
+            else:
+                path = os.path.join(d, "t." + r)
+                data = text.encode("utf8")
+                if r == "file":
+                    with open(path, "wb") as fh:
+                        fh.write(data)
+                    from shexer.io.line_reader.file_line_reader import FileLineReader
+                    rd = FileLineReader(source_file=path)
+                elif r == "gz":
+                    with gzip.open(path, "wb") as fh:
+                        fh.write(data)
+                    from shexer.io.line_reader.gz_line_reader import GzFileLineReader
+                    rd = GzFileLineReader(gz_file=path)
+                elif r == "xz":
+                    with lzma.open(path, "wb") as fh:
+                        fh.write(data)
+                    from shexer.io.line_reader.xz_line_reader import XzFileLineReader
+                    rd = XzFileLineReader(xz_file=path)
+                else:
+                    with zipfile.ZipFile(path, "w") as z:
+                        z.writestr("m.nt", data)
+                    from shexer.io.line_reader.zip_file_line_reader import ZipFileLineReader
+                    za = zipfile.ZipFile(path)
+                    rd = ZipFileLineReader(zip_archive=za, zip_target="m.nt")
+            return [l for l in rd.read_lines()]
+        st, val, exc, frame = runner.call_guarded(go, timeout=5)
+    finally:
+        shutil.rmtree(d, ignore_errors=True)
+    lines = []
+    if st == "ok":
+        for l in val:
+            l = l.strip()                  # what the statement scanners do with a line (str.strip: every white space, U+2028 too)
+            if l:
+                lines.append(["LS" if ch == "\u2028" else ch for ch in l])
+    return {"id": payload["id"], "text": payload["text"], "reader": payload["reader"], "status": st, "exc": exc, "lines": lines}
+
+
+def judge_line_readers(out, tier):
+    """leg L2 for the line readers: every text TLC enumerates (spec/MC_LineReader.tla) through the five real readers"""
+    n = 4 if tier == "quick" else 5
+    for cfg, must_fail in (("MC_LineReader_spec.cfg", False), ("MC_LineReader_lfonly.cfg", True), ("MC_LineReader_splitlines.cfg", True)):
+        r = tlc.check_model("MC_LineReader", cfg, workers=4, timeout=600)
+        if not must_fail:
+            out.add_l1("MC_LineReader/" + cfg, r)
+            for inv in r["violated"]:
+                out.violation("L1.%s" % inv, {"model": cfg}, r["out"][-1200:])
+        elif not r["violated"]:          # the models of the two known wrong splitters must be rejected: otherwise the model has no teeth
+            raise common.Machinery("%s was expected to be violated (the model no longer tells the wrong line splitters apart)" % cfg)
+    work = tlc.scratch()
+    try:
+        cfgp = os.path.join(tlc.SPEC_DIR, "MC_LineReader_dump.cfg")
+        import subprocess
+        with open(os.path.join(work, "dump.cfg"), "w") as fh:
+            fh.write("SPECIFICATION Spec\nCONSTANTS\n  N = %d\nINVARIANT Dump\n" % n)
+        p = subprocess.run(["java", "-XX:+UseSerialGC", "-Xmx3g", "-cp", tlc.JAR, "tlc2.TLC", "-workers", "1", "-metadir", os.path.join(work, "meta"),
+                            "-noGenerateSpecTE", "-config", os.path.join(work, "dump.cfg"), "MC_LineReader"], cwd=tlc.SPEC_DIR,
+                           stdout=subprocess.PIPE, stderr=subprocess.STDOUT, text=True, timeout=900)
+    finally:
+        import shutil
+        shutil.rmtree(work, ignore_errors=True)
+    import re
+    texts = []
+    for m in re.finditer(r'<<\s*"TEXT"', p.stdout):
+        v = tlc.parse_tla_value(p.stdout[m.start():])
+        texts.append(list(v[1]))
+    if len(texts) < 1000:
+        raise tlc.TlcFailure("MC_LineReader dumped %d texts:\n%s" % (len(texts), p.stdout[-1200:]))
+    payloads = [{"id": "lr%d.%s" % (i, rd), "text": t, "reader": rd} for i, t in enumerate(texts) for rd in ("raw", "file", "gz", "xz", "zip")]
+    results = runner.run_many(_read_lines, payloads, chunk=100)
+    for r in results:
+        if r.get("status") == "harness-error":
+            raise common.Machinery("harness error: %s\n%s" % (r.get("exc"), r.get("trace", "")))
+    traces = [{"id": r["id"], "text": r["text"], "reader": r["reader"], "status": r["status"], "lines": r["lines"]} for r in results]
+    verdicts, stats = tlc.validate_batch("Trace_LineReader", "Trace_LineReader.cfg", traces, procs=10)
+    out.traces += len(traces)
+    out.evaluations += len(traces)
+    out.notes["line_reader_texts"] = len(texts)
+    for r in results:
+        v = verdicts[r["id"]]
+        out.judge_clauses(v["clauses"], {"kind": "lines", "text": r["text"], "reader": r["reader"]}, lambda c: True,
+                          detail="text %r through the %s reader: lines %r %s" % ("".join(CHAR.get(ch, ch) for ch in r["text"]), r["reader"],
+                                                                                 ["".join(l) for l in r["lines"]], r["exc"]))
+
+
 def check_c06(out, tier):
     rnd = random.Random(common.seed() + 6)
     for cfg in (["MC_C06_quick.cfg"] if tier == "quick" else ["MC_C06_mid.cfg", "MC_C06_thorough.cfg"]):
@@ -212,6 +314,7 @@ def check_c06(out, tier):
         judge_nt(out, nt_statements(3, "core"), "exhaustive L<=3, core layout")
         judge_nt(out, random_nt_statements(rnd, 20000), "random L<=12")
     judge_nt_docs(out, rnd, 240 if tier == "quick" else 3000)
+    judge_line_readers(out, tier)
     return ("single-line N-Triples statements: subject in {2 IRIs with '#','@','_',':' ; blank node} x object in {IRI, blank "
             "node, literal whose content is a word over the 16-symbol adversarial alphabet (escaped quote, escaped backslash, "
             "'@', '^^', '#', ' .', '<', '>', 'xsd:', 'geo:', digit, '_', non-ASCII, \\uXXXX, '%', 'a')} x suffix {none, @en, "
